@@ -176,3 +176,50 @@ pub(crate) fn p_documented_panic<const N: usize>() {
     drop(b);
     no_double_drop();
 }
+
+/// C19 (bounded stand-in for extreme capacities in the functions Verus cannot reach - drain, ranges, iterators:
+/// CBMC cannot represent arrays of usize::MAX elements): zero-sized elements, capacity HUGE, front position at
+/// 0, in the middle, and right below the capacity (where start + i exceeds the machine word); every operation
+/// must complete without overflow / division / bounds panic (the native build has overflow checks on) and lengths,
+/// return values and destructor counts must follow the sequence semantics.
+pub(crate) fn p_zst_huge<const N: usize>() {
+    scenario_begin();
+    unsafe { ZDROPS = 0; }
+    let mut b = CircularBuffer::<N, Z>::new();
+    let pos = nd::usize_in(0, 4);
+    b.start = match pos { 0 => 0, 1 => N - 1, 2 => N - 2, 3 => N / 2, _ => N - 3 };
+    let size = nd::usize_in(0, 3);
+    b.size = size;
+    let op = nd::usize_in(0, 13);
+    let arg = match nd::usize_in(0, 5) { 0 => 0, 1 => 1, 2 => 2, 3 => 3, 4 => usize::MAX - 1, _ => usize::MAX };
+    let mut len = size; let mut dropped = 0usize;
+    let r = catch_unwind(AssertUnwindSafe(|| {
+        match op {
+            0 => { let r = b.push_back(Z); if r.is_some() { nd::record_failure("[C19] huge ZST buffer: push_back displaced an element although not full"); } core::mem::forget(r); len += 1; }
+            1 => { let r = b.push_front(Z); if r.is_some() { nd::record_failure("[C19] huge ZST buffer: push_front displaced an element although not full"); } core::mem::forget(r); len += 1; }
+            2 => { let r = b.pop_back(); if r.is_some() != (size > 0) { nd::record_failure("[C19] huge ZST buffer: pop_back"); } if size > 0 { len -= 1; } core::mem::forget(r); }
+            3 => { let r = b.pop_front(); if r.is_some() != (size > 0) { nd::record_failure("[C19] huge ZST buffer: pop_front"); } if size > 0 { len -= 1; } core::mem::forget(r); }
+            4 => { let r = b.remove(arg); if r.is_some() != (arg < size) { nd::record_failure("[C19] huge ZST buffer: remove"); } if arg < size { len -= 1; } core::mem::forget(r); }
+            5 => { b.truncate_back(arg); if arg < size { dropped = size - arg; len = arg; } }
+            6 => { b.truncate_front(arg); if arg < size { dropped = size - arg; len = arg; } }
+            7 => { let s = if arg < size { arg } else { size }; { let mut d = b.drain(s..); if let Some(z) = d.next_back() { core::mem::forget(z); dropped = size - s - 1; } } len = s; }
+            8 => { let s = if arg < size { arg } else { size }; { let d = b.drain(..s); drop(d); } dropped = s; len = size - s; }
+            9 => { let s = if arg < size { arg } else { size }; let n = b.range(s..).count() + b.range(..s).rev().count(); if n != size { nd::record_failure("[C19] huge ZST buffer: range() yields a wrong number of elements"); } }
+            10 => { let n = b.iter().count(); let m = b.iter_mut().rev().count(); if n != size || m != size { nd::record_failure("[C19] huge ZST buffer: iter()/iter_mut() yield a wrong number of elements"); } }
+            11 => { let g = b.get(arg).is_some(); let nb = b.nth_back(arg).is_some(); if g != (arg < size) || nb != (arg < size) { nd::record_failure("[C19] huge ZST buffer: get / nth_back"); }
+                    let (x, y) = b.as_slices(); if x.len() + y.len() != size { nd::record_failure("[C19] huge ZST buffer: as_slices total length"); } }
+            12 => { if size >= 2 { b.swap(0, size - 1); } let r = b.swap_remove_front(arg); if r.is_some() != (arg < size) { nd::record_failure("[C19] huge ZST buffer: swap_remove_front"); } if arg < size { len -= 1; } core::mem::forget(r); }
+            _ => { let n = if arg < 4 { arg } else { 3 }; b.extend_from_slice(&[Z, Z, Z][..n]); len += n; /* the three literals are dropped at the end of this arm */ dropped += 3; }
+        }
+    }));
+    if r.is_err() { nd::record_failure("[C11,C19] huge ZST buffer: the operation panicked (overflow, division by zero or bounds)"); }
+    else {
+        if !(b.start < N && b.size == len) || b.len() != len || b.is_empty() != (len == 0) || b.is_full() { nd::record_failure("[C19] huge ZST buffer: length / emptiness / fullness do not follow the sequence semantics"); }
+        if zdrops() != dropped { nd::record_failure("[C19] huge ZST buffer: number of destructor runs differs from the number of elements removed and not returned"); }
+    }
+    // drop the few remaining elements
+    let remaining = b.size;
+    let before = zdrops();
+    drop(b);
+    if r.is_ok() && zdrops() - before != remaining { nd::record_failure("[C19] huge ZST buffer: dropping the buffer does not destroy exactly the remaining elements"); }
+}
